@@ -18,7 +18,8 @@ Definition f32_fl (o : oracle) : FL f32 :=
      fl_exp := libm1 o LExp; fl_ln := libm1 o LLn;
      fl_atan2 := libm2 o LAtan2; fl_rem_euclid := libm2 o LRemEuclid;
      fl_bits_eq := fun a b => Z.eqb (to_bits a) (to_bits b);
-     fl_rand := frand; fl_mix := fmix |}.
+     fl_rand := frand; fl_mix := fmix;
+     fl_quadrant := fun x => match quad64 x with 1%Z => Q1 | 2%Z => Q2 | 3%Z => Q3 | _ => Q0 end |}.
 
 Definition f32_interval_sem (o : oracle) : Sem (option (interval f32)) f32 := interval_sem (f32_fl o).
 
